@@ -3,6 +3,8 @@ import ScionVerif.Model.StdPath
 import ScionVerif.Model.OneHop
 import ScionVerif.Model.AesCmac
 /-! line-protocol driver for the standard-path / one-hop-path model (C11, C12).
+The mutating operations are run in their statement-sequence form (`*Imp`: receiver threaded through reads,
+exits and writes in source order), so the bytes answered after an `err` are the receiver as written so far.
 Stateless: every request carries the path bytes (hex) or an owned model in the wire format
 `ci ch nseg { flags segid(2) ts(4) nhops hop(12)* }*` shared with `hx_path`. -/
 open ScionVerif.StdPath ScionVerif.Generated.StdPath Driver
@@ -98,14 +100,14 @@ def step (_ : Unit) : List String → Unit × String
       | none => "err"
       | some (_, rest) => s!"ok {b.length - rest.length}")
   | ["vrev", hx] => ((), withView hx fun p rest =>
-      match reverseView p with
+      match reverseViewImp.run p with
       | (q, .ok _) => s!"ok {toHex (q.toBytes ++ rest)}"
       | (q, .error _) => s!"err {toHex (q.toBytes ++ rest)}")
   | ["vexp", hx] => ((), withView hx fun p _ => match p.expiration with
       | some e => toString e | none => "panic")
   | ["vq", hx] => ((), withView hx fun p _ => vq p)
   | ["vmodel", hx] => ((), withView hx fun p _ => toHex (showM (fromView p)))
-  | ["mrev", hx] => ((), withModel hx fun m => match reverseModel m with
+  | ["mrev", hx] => ((), withModel hx fun m => match reverseModelImp.run m with
       | (q, .ok _) => s!"ok {toHex (showM q)}"
       | (q, .error _) => s!"err {toHex (showM q)}")
   | ["mexp", hx] => ((), withModel hx fun m => toString m.expiration)
@@ -117,14 +119,18 @@ def step (_ : Unit) : List String → Unit × String
     | none => "bad-op"
     | some b => match ScionVerif.OneHop.ofBytes b with
       | none => "err" | some (_, rest) => s!"ok {b.length - rest.length}")
-  | ["ohvrev", hx] => ((), withOneHop hx fun v => match ScionVerif.OneHop.reverseView v with
+  | ["ohvrev", hx] => ((), withOneHop hx fun v => match ScionVerif.OneHop.reverseViewImp.run v with
       | (q, .ok _) => s!"ok {toHex q.toBytes}"
       | (q, .error _) => s!"err {toHex q.toBytes}")
   | ["ohmrev", hx] => ((), withOneHop hx fun v =>
-      match ScionVerif.OneHop.reverseModel (ScionVerif.OneHop.fromView v) with
+      match ScionVerif.OneHop.reverseModelImp.run (ScionVerif.OneHop.fromView v) with
       | (q, .ok _) => s!"ok {toHex q.encode.toBytes}"
       | (q, .error _) => s!"err {toHex q.encode.toBytes}")
-  | ["ohexp", hx] => ((), withOneHop hx fun v => toString v.expiration)
+  | ["ohdprev", hx] => ((), withOneHop hx fun v =>
+      match ScionVerif.OneHop.toReversedStandard (ScionVerif.OneHop.fromView v) with
+      | .ok m => s!"ok {toHex (showM m)}"
+      | .error _ => "err")
+  | ["ohexp", hx] =>((), withOneHop hx fun v => toString v.expiration)
   | ["ohvset", adv, key, hx] => ((), match parseHex key with
     | some k => if k.length ≠ 16 ∨ (adv ≠ "0" ∧ adv ≠ "1") then "bad-op" else
       withOneHop hx fun v => toHex (ScionVerif.OneHop.setSecondHopView aesMac v 0x1234 k (adv == "1")).toBytes
@@ -134,7 +140,7 @@ def step (_ : Unit) : List String → Unit × String
     match validatorOf key with
     | none => "bad-op"
     | some val => withView hx fun p rest =>
-      match advanceIngress val (fi == "1") p with
+      match (ingressImp val (fi == "1")).run p with
       | (q, .ok o) =>
         let act := match o.action with
           | .forwardLocal => "local" | .continueEgress e => s!"egress:{e}"
@@ -145,7 +151,7 @@ def step (_ : Unit) : List String → Unit × String
     match validatorOf key with
     | none => "bad-op"
     | some val => withView hx fun p rest =>
-      match advanceEgress val p with
+      match (egressImp val).run p with
       | (q, .ok o) => s!"ok a={b01 o.alert} if={o.egressIf} v={b01 o.valid} {toHex (q.toBytes ++ rest)}"
       | (q, .err e) => s!"{advErr e} {toHex (q.toBytes ++ rest)}"
       | (q, .panic) => s!"panic {toHex (q.toBytes ++ rest)}")
